@@ -634,7 +634,7 @@ def run_shard(shard, rep, only=None):
                     rep.monitor("crash_points")
                     rep.case(cp_sig(spec, cp, info, cp2), nontrivial=True)
         r = random.Random(shard["seed"])
-        for i in range({"quick": 60, "thorough": 4000}[tier]):
+        for i in range({"quick": 60, "thorough": 9000}[tier]):
             case = gen_chain(r, i)
             runner.run_chain(case)
             rep.case(["chain", [[s[0], len(p)] for p, s in case["lives"]], case["spec"]["chunk"], bool(case["spec"]["start"])], nontrivial=True)
